@@ -117,7 +117,7 @@ class Methods:
             return self.regex_match(rx, args[0], name)
         if name in ('sub', 'findall', 'split'):
             cargs = [self.norm_str(a) for a in args]
-            if all(isinstance(a, (str, int)) or callable(a) for a in cargs):
+            if all(isinstance(a, (str, int)) or callable(a) or type(a).__name__ == 'Func' for a in cargs):
                 return self.native(getattr(obj, name), cargs, kwargs)
             raise Unsupported('pattern.%s on a symbolic string' % name)
         raise Unsupported('pattern.' + name)
